@@ -688,3 +688,158 @@ Section Writes.
     destruct full; reflexivity.
   Qed.
 End Writes.
+
+(* ================================================================== *)
+(* 5. Distinct                                                         *)
+
+(* v is BSON-equal to a member of l *)
+Definition InEq (v : value) (l : list value) : Prop :=
+  exists x, In x l /\ compare v x = Eq.
+
+Definition vle (a b : value) : Prop := compare a b <> Gt.
+Definition vlt (a b : value) : Prop := compare a b = Lt.
+
+Lemma InEq_perm v l l' : Permutation l l' -> InEq v l -> InEq v l'.
+Proof.
+  intros P (x & Hx & E). exists x. split; [|exact E].
+  eapply Permutation_in; eassumption.
+Qed.
+
+Definition prev_ok (P : value -> value -> Prop) (prev : option value) (l : list value) : Prop :=
+  match prev with Some p => Forall (P p) l | None => True end.
+
+Lemma dedupe_sorted l : forall prev,
+  StronglySorted vle l -> prev_ok vle prev l ->
+  StronglySorted vlt (dedupe_keep_first prev l) /\
+  prev_ok vlt prev (dedupe_keep_first prev l).
+Proof.
+  induction l as [|x t IH]; intros prev S P.
+  - cbn. split; [constructor|]. destruct prev; cbn; auto.
+  - inversion S as [|? ? St Fx]; subst.
+    assert (Keep : forall prev', prev_ok vlt prev' [x] ->
+              StronglySorted vlt (x :: dedupe_keep_first (Some x) t) /\
+              prev_ok vlt prev' (x :: dedupe_keep_first (Some x) t)).
+    { intros prev' Hp.
+      destruct (IH (Some x) St Fx) as [S' F'].
+      split; [constructor; assumption|].
+      destruct prev' as [p|]; cbn in *; [|exact I].
+      inversion Hp as [|? ? Hpx _]; subst.
+      constructor; [exact Hpx|].
+      eapply Forall_impl; [|exact F']. intros z Hz.
+      exact (compare_lt_trans _ _ _ Hpx Hz). }
+    cbn [dedupe_keep_first]. destruct prev as [p|].
+    + cbn in P. inversion P as [|? ? Hpx Hpt]; subst.
+      destruct (compare p x) eqn:E.
+      * apply IH; [exact St | exact Hpt].
+      * apply Keep. cbn. constructor; [exact E | constructor].
+      * exfalso. exact (Hpx E).
+    + apply Keep. exact I.
+Qed.
+
+Lemma dedupe_incl l : forall prev x, In x (dedupe_keep_first prev l) -> In x l.
+Proof.
+  induction l as [|y t IH]; intros prev x H; [exact H|].
+  cbn [dedupe_keep_first] in H. destruct prev as [p|].
+  - destruct (compare p y).
+    + right. eapply IH; exact H.
+    + destruct H as [<-|H]; [left; reflexivity | right; eapply IH; exact H].
+    + destruct H as [<-|H]; [left; reflexivity | right; eapply IH; exact H].
+  - destruct H as [<-|H]; [left; reflexivity | right; eapply IH; exact H].
+Qed.
+
+Lemma compare_eq_sym a b : compare a b = Eq -> compare b a = Eq.
+Proof. apply (tl_eq_sym compare compare_total). Qed.
+
+Lemma compare_eq_trans a b c : compare a b = Eq -> compare b c = Eq -> compare a c = Eq.
+Proof. apply (tl_eq_trans compare compare_total). Qed.
+
+(* nothing is lost: every value dropped is BSON-equal to one that is kept *)
+Lemma dedupe_complete v l : forall prev,
+  InEq v l ->
+  InEq v (dedupe_keep_first prev l) \/
+  match prev with Some p => compare v p = Eq | None => False end.
+Proof.
+  induction l as [|y t IH]; intros prev (x & Hx & E); [destruct Hx|].
+  assert (Keep : (x = y \/ InEq v t) -> InEq v (y :: dedupe_keep_first (Some y) t)).
+  { intros [->|Ht].
+    - exists y. split; [left; reflexivity | exact E].
+    - destruct (IH (Some y) Ht) as [(z & Hz & Ez)|Ey].
+      + exists z. split; [right; exact Hz | exact Ez].
+      + exists y. split; [left; reflexivity | exact Ey]. }
+  assert (Hcase : x = y \/ InEq v t).
+  { destruct Hx as [->|Hx]; [left; reflexivity | right; exists x; split; assumption]. }
+  cbn [dedupe_keep_first]. destruct prev as [p|].
+  - destruct (compare p y) eqn:Ep.
+    + destruct Hcase as [->|Ht].
+      * right. apply (compare_eq_trans _ y); [exact E | apply compare_eq_sym; exact Ep].
+      * apply IH. exact Ht.
+    + left. apply Keep. exact Hcase.
+    + left. apply Keep. exact Hcase.
+  - left. apply Keep. exact Hcase.
+Qed.
+
+(* collect: per document, the value(s) found at the path with embedded
+   arrays traversed (All ... compact merge), missing dropped, and one level
+   of array flattening *)
+Theorem collect_spec : forall d p,
+  collect [d] p true true true =
+  let v := fst (All d p true true) in
+  if is_missing v then []
+  else match v with VArr a => a | _ => [v] end.
+Proof.
+  intros d p. unfold collect. cbn [flat_map]. rewrite app_nil_r. reflexivity.
+Qed.
+
+Lemma collect_cons d t p c m f : collect (d :: t) p c m f = collect [d] p c m f ++ collect t p c m f.
+Proof. unfold collect. cbn [flat_map]. rewrite app_nil_r. reflexivity. Qed.
+
+Lemma collect_in x ds p c m f :
+  In x (collect ds p c m f) <-> exists d, In d ds /\ In x (collect [d] p c m f).
+Proof.
+  induction ds as [|d t IH].
+  - cbn. split; [intros [] | intros (d & [] & _)].
+  - rewrite collect_cons, in_app_iff, IH. split.
+    + intros [H|(d' & Hd & H)].
+      * exists d. split; [left; reflexivity | exact H].
+      * exists d'. split; [right; exact Hd | exact H].
+    + intros (d' & [<-|Hd] & H); [left; exact H | right; exists d'; split; assumption].
+Qed.
+
+(* strictly increasing: every earlier member is strictly below every later
+   one, so each BSON-equality class occurs exactly once *)
+Theorem distinct_sorted_nodup : forall ds p, StronglySorted vlt (distinct ds p).
+Proof.
+  intros ds p. unfold distinct.
+  apply (dedupe_sorted _ None); [|exact I].
+  apply (stable_sort_sorted compare compare_total).
+Qed.
+
+Corollary distinct_adjacent_lt : forall ds p, Sorted vlt (distinct ds p).
+Proof. intros. apply StronglySorted_Sorted, distinct_sorted_nodup. Qed.
+
+Theorem distinct_exact : forall ds p v,
+  InEq v (distinct ds p) <->
+  exists d, In d ds /\ InEq v (collect [d] p true true true).
+Proof.
+  intros ds p v. unfold distinct.
+  pose proof (stable_sort_perm compare (collect ds p true true true)) as P.
+  split.
+  - intros (x & Hx & E). apply dedupe_incl in Hx.
+    apply (Permutation_in _ (Permutation_sym P)) in Hx.
+    apply collect_in in Hx. destruct Hx as (d & Hd & Hx).
+    exists d. split; [exact Hd|]. exists x. split; assumption.
+  - intros (d & Hd & x & Hx & E).
+    assert (H : InEq v (stable_sort compare (collect ds p true true true))).
+    { apply (InEq_perm _ _ _ P). exists x. split; [|exact E].
+      apply collect_in. exists d. split; assumption. }
+    destruct (dedupe_complete v _ None H) as [H'|[]]. exact H'.
+Qed.
+
+(* every returned value is one of the collected values itself *)
+Theorem distinct_members : forall ds p x,
+  In x (distinct ds p) -> exists d, In d ds /\ In x (collect [d] p true true true).
+Proof.
+  intros ds p x H. unfold distinct in H. apply dedupe_incl in H.
+  apply (Permutation_in _ (Permutation_sym (stable_sort_perm compare _))) in H.
+  apply collect_in in H. exact H.
+Qed.
